@@ -28,6 +28,58 @@ from mutant_defs import register  # noqa: E402
 register(mutant)
 
 
+B = []
+
+
+def benign(bid, props, edits, note=""):
+    B.append(dict(id=bid, props=props, edits=edits, note=note))
+
+
+from benign_defs import register as register_benign  # noqa: E402
+
+register_benign(benign)
+
+
+def build_benign() -> None:
+    out = os.path.join(HERE, "benign")
+    os.makedirs(out, exist_ok=True)
+    for b in B:
+        diff = ""
+        files = {}
+        for file, old, new in b["edits"]:
+            path = os.path.join(SRC, file)
+            src = files.get(file) or open(path).read()
+            if src.count(old) != 1:
+                print(f"!! {b['id']}: anchor found {src.count(old)} times in {file}: {old[:50]!r}")
+                continue
+            files[file] = src.replace(old, new)
+        for file, new in files.items():
+            rel = f"src/dpapi_ng/{file}"
+            src = open(os.path.join(SRC, file)).read()
+            diff += "".join(difflib.unified_diff(src.splitlines(True), new.splitlines(True), f"a/{rel}", f"b/{rel}"))
+        with open(os.path.join(out, b["id"] + ".diff"), "w") as f:
+            f.write(diff)
+    print(f"built {len(B)} benign variants")
+
+
+def run_benign(prefixes, tier="quick") -> int:
+    """Every listed check must stay silent (exit 0) on every property-preserving variant."""
+    alarms = 0
+    for b in B:
+        if prefixes and not any(b["id"].startswith(p) for p in prefixes):
+            continue
+        patch = os.path.join(HERE, "benign", b["id"] + ".diff")
+        for prop in b["props"]:
+            p = subprocess.run([os.path.join(HERE, "run_mutant.sh"), patch, prop, tier], capture_output=True, text=True)
+            status = {0: "silent", 1: "FALSE-ALARM", 2: "INCONCLUSIVE", 3: "PATCH-FAILED"}.get(p.returncode, f"rc={p.returncode}")
+            if p.returncode != 0:
+                alarms += 1
+            print(f"{b['id']:32s} {prop} {tier:8s} {status}")
+            if p.returncode != 0:
+                print("    " + "\n    ".join([l[:300] for l in (p.stdout + p.stderr).splitlines() if l.startswith(("VIOLATION", "INCONCLUSIVE", "  violation", "  inconclusive", "PATCH"))][:6]))
+    return alarms
+
+
 def build() -> None:
     out = os.path.join(HERE, "mutants")
     os.makedirs(out, exist_ok=True)
@@ -66,6 +118,9 @@ def run(prefixes, tier="quick", check_tests=False) -> int:
 if __name__ == "__main__":
     if sys.argv[1] == "build":
         build()
+        build_benign()
+    elif sys.argv[1] == "benign":
+        sys.exit(1 if run_benign([a for a in sys.argv[2:] if not a.startswith("--")], "thorough" if "--thorough" in sys.argv else "quick") else 0)
     else:
         args = [a for a in sys.argv[2:] if not a.startswith("--")]
         tier = "thorough" if "--thorough" in sys.argv else "quick"
